@@ -100,6 +100,8 @@ structure Cfg where
   modifyForgets : Bool
   /-- `to_json` / `__reduce__` leave out the derived names -/
   dumpSkipsDerived : Bool
+  /-- `copy.deepcopy(reg)` hands the copy the set `_derived_symbols` together with the table -/
+  copyKeepsFlags : Bool
   /-- source inspection (`ast`): in `add`, `remove` and `modify` the call `self._forget_derived_symbols()`
       is an unconditional top-level statement that precedes every mention of `self.lut` (no step reads
       this flag; `sound` requires it, so that a guard the probes do not exercise is still refused) -/
@@ -114,7 +116,7 @@ def Cfg.sound (c : Cfg) : Bool :=
   c.addForgets false .absent && c.addForgets false (.user false) && c.addForgets false (.user true)
     && c.addForgets false .derived && c.addForgets true .absent && c.addForgets true (.user false)
     && c.addForgets true (.user true) && c.addForgets true .derived
-    && c.removeForgets && c.modifyForgets && c.dumpSkipsDerived && c.forgetUnconditional
+    && c.removeForgets && c.modifyForgets && c.dumpSkipsDerived && c.forgetUnconditional && c.copyKeepsFlags
 
 /-! ### the registry as a state machine -/
 
@@ -133,6 +135,8 @@ inductive Op (K : Type)
   | modify (s : Name) (v : K)
   /-- `UnitRegistry.from_json(reg.to_json())`, `pickle.loads(pickle.dumps(quantity))` -/
   | reload
+  /-- `copy.deepcopy(reg)` (`UnitRegistry.__deepcopy__`): the copy is used from here on -/
+  | copy
 
 inductive Out (K : Type)
   /-- the entry found (`none`: `UnitParseError`) -/
@@ -177,6 +181,10 @@ def step [Mul K] (cfg : Cfg) (pre : PrefixesN K) (dflt : Dict (Entry K)) (r : Re
   | .reload =>
     let r1 := if cfg.dumpSkipsDerived then forget r else { r with derived := [] }
     ({ r1 with tab := loaded dflt r1.tab }, .done)
+  | .copy =>
+    -- the table is copied as it is, written-back entries included; without their flags they
+    -- would pass for user entries in the copy
+    (if cfg.copyKeepsFlags then r else { r with derived := [] }, .done)
 
 /-- run a history; the outputs in order -/
 def run [Mul K] (cfg : Cfg) (pre : PrefixesN K) (dflt : Dict (Entry K)) (r : Reg K) : List (Op K) → Reg K × List (Out K)
@@ -207,6 +215,7 @@ def absStep (dflt : Dict (Entry K)) (c : Contents K) : Op K → Contents K
     | none => c
     | some e => update c s (some { e with scale := v })
   | .reload => fillC dflt c
+  | .copy => c
 
 /-- what a FRESH registry holding exactly the user's table answers -/
 def absOut [Mul K] (pre : PrefixesN K) (c : Contents K) : Op K → Out K
@@ -215,6 +224,7 @@ def absOut [Mul K] (pre : PrefixesN K) (c : Contents K) : Op K → Out K
   | .remove s => match c s with | none => .missing | some _ => .done
   | .modify s _ => match c s with | none => .missing | some _ => .done
   | .reload => .done
+  | .copy => .done
 
 def absRun [Mul K] (pre : PrefixesN K) (dflt : Dict (Entry K)) (c : Contents K) : List (Op K) → Contents K × List (Out K)
   | [] => (c, [])
@@ -247,9 +257,12 @@ structure CacheCfg where
   modifyClears : Bool
   /-- a registry made by `from_json` / unpickling starts with an empty string cache -/
   reloadEmpty : Bool
+  /-- so does a deep copy -/
+  copyEmpty : Bool
 deriving DecidableEq, Repr
 
-def CacheCfg.sound (c : CacheCfg) : Bool := c.addClears && c.removeClears && c.modifyClears && c.reloadEmpty
+def CacheCfg.sound (c : CacheCfg) : Bool :=
+  c.addClears && c.removeClears && c.modifyClears && c.reloadEmpty && c.copyEmpty
 
 structure RegS (K : Type) where
   reg : Reg K
@@ -299,6 +312,7 @@ def stepS [Mul K] (cfg : Cfg) (cc : CacheCfg) (rt : Route K) (dflt : Dict (Entry
         | .remove _, .done => cc.removeClears
         | .modify _ _, .done => cc.modifyClears
         | .reload, _ => cc.reloadEmpty
+        | .copy, _ => cc.copyEmpty
         | _, _ => false
       ({ reg := reg1, cache := if clears then [] else r.cache }, .out out)
 
